@@ -20,7 +20,9 @@ import re
 from .facts import Body, callee, callee_resolved, strip_generics
 
 
-def _ctype(fb, crate):
+def _ctype(fb, crate, body=None):
+    if body is not None and body.raw.get('ctype'):
+        return body.raw['ctype']
     return 'Rlib' if (crate, 'Rlib') in fb.available() else 'ProcMacro'
 
 
@@ -150,7 +152,7 @@ def _async_body(fb, crate, cb):
     aggs = [st for blk in cb.blocks for st in blk['st'] if st.get('lhs') == {'l': 0} and st['rv']['k'] == 'agg' and st['rv'].get('ak') == 'coroutine']
     if len(aggs) != 1:
         return None
-    bs = [b for b in fb.bodies_of_item(crate, cb.nroot, _ctype(fb, crate)) if b.is_coroutine and b.id == aggs[0]['rv'].get('def')]
+    bs = [b for b in fb.bodies_of_item(crate, cb.nroot, _ctype(fb, crate, cb)) if b.is_coroutine and b.id == aggs[0]['rv'].get('def')]
     if len(bs) != 1:
         return None
     ops = []
@@ -300,7 +302,7 @@ def _closure_of(fb, body, blocks, local):
                 hit = st['rv']
     if hit is None or not hit.get('def'):
         return None
-    ct = _ctype(fb, body.crate)
+    ct = _ctype(fb, body.crate, body)
     for x in fb.bodies(body.crate, ct):
         if x.id == hit['def'] and not x.is_coroutine:
             return x
@@ -397,7 +399,7 @@ def _inline_combinator(fb, body, blocks, locals_, vars_, i, t, name):
     return list(range(db, len(blocks)))
 
 
-def inlined(fb, body, keep=(), also=None, depth=4, crate=None, closures=True):
+def inlined(fb, body, keep=(), also=None, depth=4, crate=None, closures=True, only=None):
     """-> Body (a new one if anything was inlined, else `body` itself)"""
     crate = crate or body.crate
     keep = set(keep)
@@ -429,10 +431,10 @@ def inlined(fb, body, keep=(), also=None, depth=4, crate=None, closures=True):
         if name in chain:
             continue
         try:
-            cb = fb.body(crate, name, _ctype(fb, crate))
+            cb = fb.body(crate, name, _ctype(fb, crate, body))
         except KeyError:
             cb = None
-        if not eligible(fb, body, cb, keep, also):
+        if not eligible(fb, body, cb, keep, also) or (only is not None and not only(cb)):
             continue
         if cb.raw['argc'] != len(t['args']):
             continue
@@ -508,7 +510,7 @@ def inlined(fb, body, keep=(), also=None, depth=4, crate=None, closures=True):
 
 def closures_of(fb, body):
     """nested closure/coroutine bodies of the function and of every helper inlined into it"""
-    ct = _ctype(fb, body.crate)
+    ct = _ctype(fb, body.crate, body)
     out = [b for b in fb.bodies_of_item(body.crate, body.nroot, ct) if b.nid != body.nid]
     for r in body.raw.get('extra_roots', []):
         out.extend(b for b in fb.bodies_of_item(body.crate, r, ct) if b.nid != r)
